@@ -31,6 +31,7 @@
 #include <stdio.h>
 #include <math.h>
 #include <float.h>
+#include <limits.h>
 
 #ifdef HAVE_UNISTD_H
 #include <unistd.h>
@@ -2048,7 +2049,16 @@ int cif_value_parse_numb(cif_value_tp *n, UChar *text) {
 
         exp_start = pos;
         while ((text[pos] >= UCHAR_0) && (text[pos] <= UCHAR_9)) {
-            exponent = (int) ((exponent * 10) + (text[pos] - UCHAR_0));
+            /*
+             * Saturate rather than overflow: an exponent this large puts the number far outside the range of
+             * any supported floating-point type anyway, and the saturation limit leaves headroom for the
+             * adjustment of the scale for the fractional digits, below.
+             */
+            if (exponent <= ((INT_MAX / 2) - 9) / 10) {
+                exponent = (int) ((exponent * 10) + (text[pos] - UCHAR_0));
+            } else {
+                exponent = INT_MAX / 2;
+            }
             pos += 1;
         }
         if (pos <= exp_start) {
